@@ -724,3 +724,72 @@ func isIndexLoop(info *types.Info, p *ast.ForStmt) bool {
 	}
 	return identObj(info, be.X) == v || identObj(info, be.Y) == v
 }
+
+// loopElement: e denotes the current element of the innermost loop enclosing `at`, whatever the loop
+// form: the value variable of `for _, x := range C`, `C[i]` with i the key of `for i := range C` or
+// the counter of `for i := 0; i < len(C); i++`, or a local defined once as one of these. Returns the
+// canonical text of the container C.
+func (c *Ctx) loopElement(info *types.Info, body *ast.BlockStmt, at ast.Node, e ast.Expr, o *canonOpts) (container string, ok bool) {
+	var loop ast.Node
+	for _, a := range stackTo(body, at) {
+		switch a.(type) {
+		case *ast.RangeStmt, *ast.ForStmt:
+			loop = a
+		}
+	}
+	if loop == nil {
+		return "", false
+	}
+	var idx, val types.Object
+	switch l := loop.(type) {
+	case *ast.RangeStmt:
+		container = c.canon(info, l.X, o)
+		if l.Key != nil {
+			idx = identObj(info, l.Key)
+		}
+		if l.Value != nil {
+			val = identObj(info, l.Value)
+		}
+	case *ast.ForStmt:
+		if !isIndexLoop(info, l) {
+			return "", false
+		}
+		idx = identObj(info, l.Init.(*ast.AssignStmt).Lhs[0])
+		be := unparen(l.Cond).(*ast.BinaryExpr)
+		bound := be.Y
+		if identObj(info, be.Y) == idx {
+			bound = be.X
+		}
+		bk := c.canon(info, bound, o)
+		if !strings.HasPrefix(bk, "len(") || !strings.HasSuffix(bk, ")") {
+			return "", false
+		}
+		container = bk[4 : len(bk)-1]
+	}
+	var is func(e ast.Expr, depth int) bool
+	is = func(e ast.Expr, depth int) bool {
+		e = unparen(e)
+		if id, isId := e.(*ast.Ident); isId {
+			ob := identObj(info, id)
+			if ob != nil && ob == val {
+				return true
+			}
+			if depth > 0 && ob != nil {
+				n, def := 0, ast.Expr(nil)
+				forAssignsTo(info, loop, ob, func(rhs ast.Expr, multi, incdec bool) {
+					n++
+					def = rhs
+				})
+				if n == 1 && def != nil {
+					return is(def, depth-1)
+				}
+			}
+			return false
+		}
+		if ie, isIx := e.(*ast.IndexExpr); isIx && idx != nil {
+			return identObj(info, ie.Index) == idx && c.canon(info, ie.X, o) == container
+		}
+		return false
+	}
+	return container, is(e, 2)
+}
